@@ -131,6 +131,7 @@ type Exec struct {
 	pending    []workItem // alternatives discovered on this path
 	threads    *threadState
 	syncLen    int
+	lastSchedule string
 	ufIdx      map[string]int
 	implied    map[int]int
 	inInitGuard bool
